@@ -562,7 +562,7 @@ _ADD = {
             " DETACHSAME: a detach implementation returns the buffer it was handed only where the interval of its reference counter lies below 2. MUSTINSTALL: from the non-null edge of `b = alloc / detach` in a function with a handle parameter every path to a return stores b (or an address inside it) into memory, hands it on or assigns it again. CXXCOW: typestate with trace partitioning in mpt++/array.cpp: a content object obtained from a handle is changed in place (set_length, append, insert, skip, trim) only where its shared() test answered false on that path or it was created here. DETACHFAIL: a bool function whose `c->detach(size)` did not deliver a private copy does not answer true. STALEBUF: interval analysis with trace partitioning on (derived locals, stale locals) per function: a local computed from `A->_buf` (or that `A._buf` was computed from) is not read, dereferenced or returned after a call that may replace A's buffer (functions that store to their array parameter's `_buf`, transitively) unless it was assigned again."),
     "C05": ([{"run": rules_traits.run_initwrites, "floor": 12}, {"run": rules_traits.run_finibound, "floor": 5}, {"run": rules_traits.run_finifirst, "floor": 5}, {"run": rules_ident.run_identoverlay, "floor": 15}],
             " FINIFIRST: in a function with a finalizer loop the used length is lowered only behind that loop (or under a growth guard / a test that there is no finalizer). IDENTOVERLAY (see C16) for the identifier element type: its finalizer reads `_base` only under `_len > _max`. INITWRITES: every `init` operation named by a type_traits table has written through its element pointer on each path to a return that can be non-negative. FINIBOUND: no store to `B->_used` reaches the read of `B->_used` that bounds a finalizer loop over B."),
-    "C06": ([{"run": rules_table.run_sparsezero, "floor": 3, "use_anchor_files": True}, {"run": rules_table.run_stabletable, "floor": 3, "use_anchor_files": True}],
+    "C06": ([{"run": rules_table.run_sparsezero, "floor": 3, "use_anchor_files": True}, {"run": rules_table.run_stabletable, "floor": 1, "use_anchor_files": True}],
             " STABLETABLE: a file-level table whose entries are returned by address is never realloc()ed. SPARSEZERO: tables addressed by computed index (file-level pointers) get their memory from calloc() or are cleared with memset in the allocating function."),
     "C10": ([{"run": rules_types.run_signextend, "floor": 3, "use_anchor_files": True}],
             " SIGNEXTEND: in the path files no plain `char` loaded from memory is implicitly converted to an unsigned type of 4 bytes or more where it is used as a number (assignment, arithmetic, comparison, index): length bytes are read through `unsigned char`."),
@@ -633,7 +633,7 @@ _ADD10 = {
             " MAXSTORE: a store that changes the capacity of a ring queue is reached only over the not-fragmented edge of a fragmentation test of that queue or behind mpt_queue_align(q, 0), with no store to len / off / max in between (the all-zero reset excepted); effects of other callees on the queue between the two are not modelled."),
     "C15": ([{"run": rules_ref.run_detachrelease, "floor": 1}, {"run": rules_traits.run_initwrites, "floor": 12}],
             " DETACHRELEASE (see C04). INITWRITES (see C05) for every type_traits init operation of the program: element copies that hold references (value stores, arrays of arrays) start from written memory."),
-    "C17": ([{"run": rules_path.run_fragzero, "floor": 2, "use_anchor_files": True}, {"run": rules_path.run_fragfirst, "floor": 8, "use_anchor_files": True}],
+    "C17": ([{"run": rules_path.run_fragzero, "floor": 2, "use_anchor_files": True}, {"run": rules_path.run_fragfirst, "floor": 5, "use_anchor_files": True}],
             " FRAGFIRST: a function handed a fragment list with a count decides no exit by the length of the first fragment alone (outside every loop). FRAGZERO: over all indexed reads through a pointer loaded from a fragment's iov_base the index interval starts at 0 (a count-down that stops in front of index 0 never examines the first byte of a fragment)."),
     "C19": ([], " DERIVEDFIELD also has a path clause: behind a change of the source member (a store, or a callee handed the address of the sub-object it lives in) no non-failure exit is reached with the cached pointer neither stored again nor null beforehand."),
 }
